@@ -9,7 +9,7 @@ sections, path construction and painting, `applyTransition`), `popNesting`,
 
 Modelled state: `CurrentObject`, the nesting stack, the q/Q stack with the saved `Usable`
 bits and dash pattern emptiness, `Usable`, whether the dash pattern is empty, the commands of
-the current path, and whether `0 < Version < 2.0` (`strict`).  Not modelled: the graphics
+the current path, whether `0 < Version < 2.0` (`strict`) and whether `0 < Version` (`ver`).  Not modelled: the graphics
 parameters themselves (CTM, colours, fonts, …) and resources; the harness runs with empty
 resources, so that `gs` and `Tf` change `Usable` only through the operator table.
 
@@ -65,6 +65,7 @@ structure St where
   dashEmpty : Bool          -- len(GState.DashPattern) == 0
   path : List Cmd           -- currentPath.Cmds
   strict : Bool             -- 0 < Version < pdf.V2_0
+  ver : Bool                -- 0 < Version (set by the Builder; readers leave Version 0)
   compat : Nat              -- compatibilityDepth
   deriving Repr
 
@@ -74,9 +75,9 @@ def andNot (a b : Nat) : Nat := a ^^^ (a &&& b)
 /-- the q/Q depth limit in `Push` (second integer literal of the function body) -/
 def qLimit : Nat := Gen.content_lits_State_Push.getD 1 0
 
-/-- `NewState(ct, nil)` with `Version` set; `ct`: 0 Page, 1 Form, 2 TransparencyGroup,
+/-- `NewState(ct, nil)` with `Version` set (`strict`: `0 < Version < 2.0`, `ver`: `0 < Version`); `ct`: 0 Page, 1 Form, 2 TransparencyGroup,
     3 PatternColored, 4 PatternUncolored, 5 Glyph -/
-def initSt (ct : Nat) (strict : Bool) : St :=
+def initSt (ct : Nat) (strict ver : Bool) : St :=
   { obj := if ct == 5 then Gen.content_ObjType3Start else Gen.content_ObjPage
     nesting := []
     stack := []
@@ -84,6 +85,7 @@ def initSt (ct : Nat) (strict : Bool) : St :=
     dashEmpty := true
     path := []
     strict := strict
+    ver := ver
     compat := 0 }
 
 /-- `allSubpathsClosed` -/
@@ -109,9 +111,16 @@ def isNum : Option Obj → Bool
 def numsAt (args : List Obj) (idx n : Nat) : Bool :=
   (List.range n).all fun i => isNum args[idx + i]?
 
-/-- `popNesting`: remove the innermost frame of the given kind -/
-def popNesting (nesting : List Nat) (kind : Nat) : Option (List Nat) :=
-  if nesting.contains kind then some (nesting.erase kind) else none
+/-- `popNesting`: remove the innermost frame of the given kind.  With `Version == 0` (readers)
+    the frame need not be on top (cross-nested pairs of broken files are tolerated); with
+    `Version > 0` (the Builder) it must be on top, otherwise the operator is rejected
+    ("improperly nested", D-C15-5) -/
+def popNesting (ver : Bool) (nesting : List Nat) (kind : Nat) : Option (List Nat) :=
+  if ver then
+    match nesting with
+    | k :: rest => if k == kind then some rest else none
+    | [] => none
+  else if nesting.contains kind then some (nesting.erase kind) else none
 
 /-- the effect of `applyOperatorToParams` on the modelled state: only `d` matters -/
 def applyParams (s : St) (name : Bytes) (args : List Obj) : St :=
@@ -136,7 +145,7 @@ def applySwitch (s : St) (name : Bytes) (args : List Obj) : Except StErr St :=
                       nesting := Gen.content_pairQ :: s.nesting }
   else if name == Gen.content_OpPopGraphicsState then
     if s.strict && s.obj == Gen.content_ObjText then .error .context
-    else match popNesting s.nesting Gen.content_pairQ with
+    else match popNesting s.ver s.nesting Gen.content_pairQ with
       | none => .error .nomatch
       | some n' =>
         match s.stack with
@@ -146,19 +155,19 @@ def applySwitch (s : St) (name : Bytes) (args : List Obj) : Except StErr St :=
     if s.obj != Gen.content_ObjPage then .error .context
     else .ok { s with obj := Gen.content_ObjText, nesting := Gen.content_pairBT :: s.nesting }
   else if name == Gen.content_OpTextEnd then
-    match popNesting s.nesting Gen.content_pairBT with
+    match popNesting s.ver s.nesting Gen.content_pairBT with
     | none => .error .nomatch
     | some n' => .ok { s with nesting := n', obj := Gen.content_ObjPage, usable := andNot s.usable Gen.gfx_StateTextMatrix }
   else if name == Gen.content_OpBeginMarkedContent || name == Gen.content_OpBeginMarkedContentWithProperties then
     .ok { s with nesting := Gen.content_pairBMC :: s.nesting }
   else if name == Gen.content_OpEndMarkedContent then
-    match popNesting s.nesting Gen.content_pairBMC with
+    match popNesting s.ver s.nesting Gen.content_pairBMC with
     | none => .error .nomatch
     | some n' => .ok { s with nesting := n' }
   else if name == Gen.content_OpBeginCompatibility then
     .ok { s with nesting := Gen.content_pairBX :: s.nesting, compat := s.compat + 1 }
   else if name == Gen.content_OpEndCompatibility then
-    match popNesting s.nesting Gen.content_pairBX with
+    match popNesting s.ver s.nesting Gen.content_pairBX with
     | none => .error .nomatch
     | some n' => .ok { s with nesting := n', compat := s.compat - 1 }
   else if name == Gen.content_OpMoveTo then
